@@ -8,6 +8,11 @@ pub fn max_num_threads() -> usize {
     weechess_simrt::knobs::rayon_threads()
 }
 
+/// Size of the (simulated) global pool: the same knob.
+pub fn current_num_threads() -> usize {
+    weechess_simrt::knobs::rayon_threads()
+}
+
 pub mod prelude {
     pub use crate::IntoParallelIterator;
 }
